@@ -2,7 +2,9 @@
 """Print the markdown table of seeded changes (DESIGN.md section 11) from seeded/*/meta.json, NOTES.json, RESULTS.json."""
 import glob, json, os, re
 HERE = os.path.dirname(os.path.dirname(os.path.abspath(__file__)))
-notes = json.load(open(os.path.join(HERE, "seeded", "NOTES.json")))["missed_first"]
+_n = json.load(open(os.path.join(HERE, "seeded", "NOTES.json")))
+notes = _n["missed_first"]
+weak = _n.get("weak_first", {})
 res = {}
 p = os.path.join(HERE, "seeded", "RESULTS.json")
 if os.path.exists(p):
@@ -20,5 +22,6 @@ for d in sorted(glob.glob(os.path.join(HERE, "seeded", "C*"))):
     keys = []
     for v in (r.get("results") or {}).values():
         keys += v.get("keys", [])
-    first = "**missed** → " + short(notes[name], 160) if name in notes else "caught"
+    first = "**missed** → " + short(notes[name], 160) if name in notes else (
+        "caught, weakly → " + short(weak[name], 160) if name in weak else "caught")
     print(f"| {name} | {short(m.get('summary'), 170)} | {short(m.get('needs_to_manifest'), 150)} | {first} | {short(', '.join(keys[:2]), 110)} |")
